@@ -158,3 +158,91 @@ Proof.
   rewrite (crop_invariance A B H f D M F r0' c0' h' w') by assumption.
   f_equal; lia.
 Qed.
+
+(* ------------------------------------------------------------------ two data cones (states / input part) *)
+
+Lemma rad_wf_max2 : forall a b, rad_wf a -> rad_wf b -> rad_wf (rmax a b).
+Proof. unfold rad_wf, rmax. intros a b (?&?&?) (?&?&?). cbn. lia. Qed.
+
+Lemma agree_via_le : forall A I (pi : A -> I) (F G : frame A) R R' r c r' c',
+  rad_le R R' -> agree_via pi F G R' r c r' c' -> agree_via pi F G R r c r' c'.
+Proof. unfold agree_via. intros. apply H0. eapply in_cone_le; eassumption. Qed.
+
+Lemma agree_on_via : forall A I (pi : A -> I) (F G : frame A) R r c r' c',
+  agree_on F G R r c r' c' -> agree_via pi F G R r c r' c'.
+Proof. unfold agree_on, agree_via. intros. f_equal. apply H. assumption. Qed.
+
+(* a step local in the plain sense needs no more of the input part than of the states *)
+Lemma local_local2 : forall A I B (pi : A -> I) (H : side A) (f : op A B) D M,
+  local H f D M -> local2 pi H f D rad0 M.
+Proof. intros A I B pi H f D M Hl F G r c r' c' HF HG Hag _ HH. apply Hl; assumption. Qed.
+
+(* ... and conversely one cone containing both is enough *)
+Lemma local2_local : forall A I B (pi : A -> I) (H : side A) (f : op A B) DS DI M,
+  local2 pi H f DS DI M -> local H f (rmax DS DI) M.
+Proof.
+  intros A I B pi H f DS DI M Hl F G r c r' c' HF HG Hag HH. apply Hl; try assumption.
+  - eapply agree_on_le; [apply rad_le_max_l | eassumption].
+  - apply agree_on_via. eapply agree_on_le; [apply rad_le_max_r | eassumption].
+Qed.
+
+Lemma local2_weaken : forall A I B (pi : A -> I) (H H' : side A) (f : op A B) DS DI M DS' DI' M',
+  local2 pi H f DS DI M -> rad_le DS DS' -> rad_le DI DI' -> rad_le M M' -> (forall F r c, H' F r c -> H F r c) ->
+  local2 pi H' f DS' DI' M'.
+Proof.
+  intros A I B pi H H' f DS DI M DS' DI' M' Hl H1 H2 H3 HH F G r c r' c' HF HG Hag Hvia HH'.
+  apply Hl.
+  - eapply cone_in_le; eassumption.
+  - eapply cone_in_le; eassumption.
+  - eapply agree_on_le; eassumption.
+  - eapply agree_via_le; eassumption.
+  - apply HH. assumption.
+Qed.
+
+Theorem local2_compose : forall A I C (pi : A -> I) (Hf Hg : side A) (f : op A A) (g : op A C) DSf DIf Mf DSg DIg Mg,
+  rad_wf DSf -> rad_wf DIf -> rad_wf Mf -> rad_wf DSg -> rad_wf DIg -> rad_wf Mg -> keeps pi f ->
+  local2 pi Hf f DSf DIf Mf -> local2 pi Hg g DSg DIg Mg ->
+  local2 pi (side_comp Hf f Hg DSg) (comp g f) (radd DSg DSf) (rmax DIg (radd DSg DIf)) (rmax Mg (radd DSg Mf)).
+Proof.
+  intros A I C pi Hf Hg f g DSf DIf Mf DSg DIg Mg W1 W2 W3 W4 W5 W6 Kf Lf Lg F G r c r' c' HF HG Hag Hvia [Hs1 Hs2].
+  unfold comp. apply Lg.
+  - exact (cone_in_le _ F Mg _ r c (rad_le_max_l _ _) HF).
+  - exact (cone_in_le _ G Mg _ r' c' (rad_le_max_l _ _) HG).
+  - intros a b Hab. unfold lift. cbn [f_at].
+    apply Lf.
+    + apply (cone_in_add _ F DSg Mf r c a b W3 W4); [|exact Hab].
+      eapply cone_in_le; [apply rad_le_max_r | exact HF].
+    + apply (cone_in_add _ G DSg Mf r' c' a b W3 W4); [|exact Hab].
+      eapply cone_in_le; [apply rad_le_max_r | exact HG].
+    + intros a' b' Hab'.
+      replace (r + a + a') with (r + (a + a')) by lia. replace (c + b + b') with (c + (b + b')) by lia.
+      replace (r' + a + a') with (r' + (a + a')) by lia. replace (c' + b + b') with (c' + (b + b')) by lia.
+      apply Hag. apply in_cone_add; assumption.
+    + intros a' b' Hab'.
+      replace (r + a + a') with (r + (a + a')) by lia. replace (c + b + b') with (c + (b + b')) by lia.
+      replace (r' + a + a') with (r' + (a + a')) by lia. replace (c' + b + b') with (c' + (b + b')) by lia.
+      apply Hvia. eapply in_cone_le; [apply rad_le_max_r|]. apply in_cone_add; assumption.
+    + apply Hs1. assumption.
+  - intros a b Hab. unfold lift. cbn [f_at]. rewrite !Kf. apply Hvia.
+    eapply in_cone_le; [apply rad_le_max_l | exact Hab].
+  - assumption.
+Qed.
+
+Lemma chain2_wf : forall A I (pi : A -> I) (H : side A) steps DS DI M,
+  chain2 pi H steps DS DI M -> rad_wf DS /\ rad_wf DI /\ rad_wf M.
+Proof.
+  induction 1.
+  - unfold rad_wf, rad0. cbn. lia.
+  - destruct IHchain2 as (? & ? & ?). split; [|split].
+    + apply rad_wf_add; assumption.
+    + apply rad_wf_max; assumption.
+    + apply rad_wf_max; assumption.
+Qed.
+
+Theorem pipeline_local2 : forall A I (pi : A -> I) (H : side A) (steps : list (op A A)) DS DI M,
+  chain2 pi H steps DS DI M -> local2 pi H (run_pipe steps) DS DI M.
+Proof.
+  induction 1.
+  - cbn [run_pipe]. apply local_local2. apply (local_pointwise A A (fun x => x)).
+  - cbn [run_pipe]. destruct (chain2_wf _ _ _ _ _ _ _ _ H5) as (? & ? & ?). apply local2_compose; assumption.
+Qed.
